@@ -206,6 +206,16 @@ func initPipes() {
 	}
 }
 
+// YA ("yield after") wraps a sync/atomic call that sits inside a larger
+// expression: the operation has returned, the enclosing expression has not
+// used its value yet, and the client may be preempted in between.
+//
+//go:norace
+func YA[T any](site int, v T) T {
+	Yield(site)
+	return v
+}
+
 // Yield is called by spliced repository code. Outside a simulation it only
 // counts.
 //
